@@ -156,12 +156,12 @@ def toInts (rawMin rawMax : Bytes) : Option (Int × Int) :=
     | none => none
     | some iMax => some (iMin, iMax)
 
-/-- renderfn.go toFloats (it compares with `*`, not `'*'`) -/
+/-- renderfn.go toFloats (since fix F12 it compares with `'*'`, like toInts) -/
 def toFloats (rawMin rawMax : Bytes) : Option (F64 × F64) :=
-  match (if rawMin == b "*" then some ((parseFloat rawMin).getD F64.zero) else parseFloat rawMin) with
+  match (if rawMin == starQ then some ((parseFloat rawMin).getD F64.zero) else parseFloat rawMin) with
   | none => none
   | some fMin =>
-    match (if rawMax == b "*" then some ((parseFloat rawMax).getD F64.zero) else parseFloat rawMax) with
+    match (if rawMax == starQ then some ((parseFloat rawMax).getD F64.zero) else parseFloat rawMax) with
     | none => none
     | some fMax => some (fMin, fMax)
 
